@@ -7,7 +7,7 @@ Second stage: the block processor on top of the same pool with a failing compres
 """
 import os, re, subprocess, sys, json
 from common import *
-import vfbuild
+import vfbuild, blockproc
 
 PROP = "C09"
 
@@ -143,6 +143,8 @@ def minimise(binary, v, budget=300):
 
 
 def replay(spec, bdir=None):
+    if spec.get('engine') == 'scn-blockproc':
+        return blockproc.replay(spec, bdir)
     bdir = bdir or vfbuild.build(variants=("plain",))
     binary = os.path.join(bdir, "plain", "scn-pool")
     res = run_spec(binary, spec["spec"])
@@ -232,6 +234,11 @@ def main():
     for k, mn in need.items():
         if agg.get(k, 0) < mn:
             rep.harness_error("insufficient reach: %s=%s" % (k, agg.get(k, 0)))
+    # library-level stage: the same components in-process, many more schedules per workload (scn/blockproc.c, py/blockproc.py)
+    lib = blockproc.stage(rep, PROP, bdir, seed, t)
+    cov["library_level_stage"] = lib
+    cov["evaluations"] = cov.get("evaluations", 0) + lib["runs"]
+    cov["distinct_nontrivial"] = cov.get("distinct_nontrivial", 0) + lib["runs_with_interleaving"]
     return rep.finish(cov, ["mutex/condvar/create/join/yield granularity is complete for code whose threads interact only "
                             "through those operations; data races between sync points are not observed",
                             "schedules are sampled (random, PCT, round-robin, starvation), not enumerated"])
